@@ -69,6 +69,23 @@ Definition shortest_unused_sequence (l : bytes) (f : byte) : res N :=
   let used := sus_runs l f [] 0 in
   sus_search (S (List.length used)) used 1.
 
+(* format_code_block: fence character and fence length *)
+Definition fence_char_of (info : bytes) : byte := if mem_byte x60 info then x7e else x60.
+Definition fence_length (literal : bytes) (fence_char : byte) : N :=
+  N.max 3 (longest_char_sequence literal fence_char + 1).
+
+(* format_code: `pad` for a NON-EMPTY literal (literal[0] panics on an empty one before pad is used) *)
+Definition code_pad (literal : bytes) : bool :=
+  let all_space := forallb (fun c => beqb c x20 || beqb c x0d || beqb c x0a) literal in
+  let first := hd x00 literal in
+  let lastc := last literal x00 in
+  let has_edge_space := beqb first x20 || beqb lastc x20 in
+  let has_edge_backtick := beqb first x60 || beqb lastc x60 in
+  has_edge_backtick || (negb all_space && has_edge_space).
+(* what stands between the two delimiters of the code span *)
+Definition code_body (literal : bytes) : bytes :=
+  if code_pad literal then [x20] ++ literal ++ [x20] else literal.
+
 (* scanners::scheme(s).is_some() *)
 Fixpoint scheme_tail (s : bytes) (n : nat) : bool :=
   (* n = characters of the rest class consumed so far *)
@@ -456,8 +473,8 @@ Section Format.
         do s <- prefix_pop dbg "cm.rs:format_code_block:prefix.len() - 4" 4 s;
         Ok (blankline s)
       else
-        let fence_char := if mem_byte x60 info then x7e else x60 in
-        let numticks := N.to_nat (N.max 3 (longest_char_sequence literal fence_char + 1)) in
+        let fence_char := fence_char_of info in
+        let numticks := N.to_nat (fence_length literal fence_char) in
         let s := w (repeat_bytes numticks fence_char) s in
         let s := if negb (is_nil info) then w info (w [x20] s) else s in
         let s := cr s in
@@ -471,14 +488,10 @@ Section Format.
     if entering then
       do numticks <- shortest_unused_sequence literal x60;
       let s := w (repeat_bytes (N.to_nat numticks) x60) s in
-      let all_space := forallb (fun c => beqb c x20 || beqb c x0d || beqb c x0a) literal in
       match literal with
       | [] => Panic "cm.rs:format_code:literal[0] (empty code literal)"
-      | first :: _ =>
-        let lastc := last literal x00 in
-        let has_edge_space := beqb first x20 || beqb lastc x20 in
-        let has_edge_backtick := beqb first x60 || beqb lastc x60 in
-        let pad := has_edge_backtick || (negb all_space && has_edge_space) in
+      | _ :: _ =>
+        let pad := code_pad literal in
         let s := if pad then w [x20] s else s in
         let s := output width literal allow_wrap Literal s in
         let s := if pad then w [x20] s else s in
